@@ -47,7 +47,7 @@ Definition run_tunnel (c : list N) : list N :=
   match c with
   | 1 :: _entry :: _variant :: nconn :: r => tcp_conns (N.to_nat nconn) r
   | 2 :: _entry :: _shared :: _variant :: ncl :: r => udp_clients (N.to_nat ncl) r
-  | [5; _entry; n] => [n * 2048; 1; 1; 4; 1; 0]  (* a long stream of small chunks to a reader that stalls: all of it, then EOF *)
+  | [5; entry; n] => [n * (if entry =? 1 then 524288 else 2048); 1; 1; 4; 1; 0]  (* a long stream of small chunks to a reader that stalls: all of it, then EOF *)
   | [4; _entry; _n] => [1; 0; 1; 1; 1]      (* after a burst of replies (some may be dropped) the exchange works as before *)
   | [3; _entry; n; _gap] => [n; 0; 1; 1; n]    (* a slow UDP client: every datagram answered, whatever the idle time *)
   | _ => MALFORMED
